@@ -172,3 +172,9 @@ Proof. eexists. split; [vm_compute; reflexivity|]. repeat split. Qed.
 Theorem send_close_no_underflow ctm acts s :
   wrun ctm winit acts = Some s -> reader s = RExiting -> wgw s = 1.
 Proof. intros R Hr. pose proof (wrun_inv _ _ _ _ WInv_init R) as [_ _ _ Wg]. now rewrite Hr in Wg. Qed.
+
+(* the schedule compared when no Send was in flight when Stop closed the connection *)
+Example unblocked_schedule_ok :
+  exists s, wrun false winit (unblocked_schedule 3) = Some s /\
+            stopper s = SRet /\ writers s = [WDone Ok; WDone Ok; WDone Ok] /\ wgw s = 0 /\ sock s = false.
+Proof. eexists. split; [vm_compute; reflexivity|]. repeat split. Qed.
